@@ -22,7 +22,9 @@ RULE += (" Constructs: ProcessParallel, itertool.ParallelForEach, itertool.Worke
          "0..12 items (thorough: ..64) x a fault at one position or at a pair of positions x failure kinds {error, %w-wrapped error, "
          "error joined with an excluded sentinel, panic(error), panic(string), panic(struct), panic(io.EOF), ErrIteratorSkip, io.EOF, "
          "ErrCurrentOpAbort, context.Canceled, wrapped DeadlineExceeded} x 2^3 flags x ExcludedErrors on/off x custom collector on/off; "
-         "single faults are swept over constructs x kinds x flags, pairs are sampled. Non-trivial run case: at least one fault was started.")
+         "single faults are swept over constructs x kinds x flags, pairs are sampled. Non-trivial run case: at least one fault was started. "
+         "The abort bound (items started after the first failure returned <= workers) is judged for Map and GenerateParallel only; "
+         "for the ProcessParallel family it is an open finding replayed in the confirmation stream, everything else is judged for it too.")
 TRUSTED = ["errors.Is of the Go standard library is modelled (Err.is), not verified",
            "constructs (T-out): the process model is tied to the implementation by outcome, not step by step: the Lean driver "
            "accepts or rejects each observed run (start/return order per goroutine on a logical clock, report membership)",
@@ -34,6 +36,10 @@ ASSUMPTIONS = ["the caller's context is not cancelled and the output iterator is
 HARNESS_ENV = {"VERIF_CASE_TIMEOUT_MS": "30000"}
 
 KEY_PSLICE = "ers.ParsePanic:error-slice-payload"
+# Iterator.ProcessParallel (hence itertool.ParallelForEach / Process / Worker) never cancels its group in abort
+# mode: the unedited TestParallelForEach/AbortOnPanic asserts that the item after the failure is processed.
+KEY_PPFAM = "ProcessParallel-family:abort-does-not-cancel-group"
+CANCELLING = ("map", "gen")      # constructs whose workers cancel the group on a stopping result
 
 S_PANIC, S_SKIP, S_EOF, S_CANCEL, S_DEADLINE, S_ABORT = 1000, 1002, 1003, 1004, 1005, 1006
 
@@ -253,12 +259,15 @@ def kind_semantics(kind, cp, ce, ic, excl):
     return True, bool(ce)
 
 
-def mk_run(c, n, fl, excl, custom, k, gate, faults):
+def mk_run(c, n, fl, excl, custom, k, gate, faults, gate_anyway=False):
+    """`gating` marks the faults after whose return new starts are held until the group's cancellation is visible:
+    the stopping results of the constructs that cancel (for the ProcessParallel family only in the known-finding
+    witnesses, `gate_anyway`: there the wait ends in the hang detector and the observation says nocancel=1)."""
     cp, ce, ic = fl >> 2 & 1, fl >> 1 & 1, fl & 1
     fs = []
     for pos, kind in sorted(faults.items()):
         rep, cont = kind_semantics(kind, cp, ce, ic, excl)
-        gating = (not cont) and not (c == "gen" and kind == "eof")
+        gating = (not cont) and not (c == "gen" and kind == "eof") and (c in CANCELLING or gate_anyway)
         fs.append([pos, kind, int(gating)])
     return C.sx(["run", ["c", c], ["n", n], ["flags", cp, ce, ic], ["excl", excl], ["custom", custom], ["items", k],
                  ["gate", gate], ["faults"] + fs])
@@ -396,8 +405,10 @@ def run_predicate(t, obs, allow_known):
             if later:
                 return f"the worker whose call on item {p} failed ({r['faults'][p][0]}) went on to process item {later[0]}"
     # --- abort: what is started after the first failure returned is bounded by the number of workers
+    # (judged for Map / GenerateParallel; for the ProcessParallel family only in the confirmation stream of the
+    #  open finding KEY_PPFAM — the main generator never marks a fault of that family as gating)
     gating = sorted((ret_tick[p], p) for p in st_faults if r["faults"][p][1] == 1 and p in ret_tick)
-    if gating and r["gate"] == 1 and sem[gating[0][1]][0]:
+    if gating and r["gate"] == 1 and sem[gating[0][1]][0] and (r["c"] in CANCELLING or allow_known):
         tf, p = gating[0]
         after = sum(1 for _, tk, _ in o["starts"] if tk > tf)
         if o["nocancel"] == 1:
@@ -431,6 +442,8 @@ def classify(line, obs, why):   # noqa: F811
         return _cce_classify(line, obs, why)
     if "payload []error" in why:
         return KEY_PSLICE
+    if parse_run(t)["c"] not in CANCELLING and ("never told to stop" in why or "items were started after" in why):
+        return KEY_PPFAM
     for pat, key in (("never told to stop", "abort:group-not-cancelled"), ("items were started after", "abort:unbounded"),
                      ("went on to process", "abort:failing-worker-continues"), ("swallowed", "report:swallowed"),
                      ("must not be reported", "report:excluded-reported"), ("result nil", "report:nil-iff"),
@@ -521,8 +534,9 @@ _corpus_cce = corpus
 
 def corpus():   # noqa: F811
     return _corpus_cce() + [
-        # D11: abort mode never cancelled the group (4 workers, 1000 items, failure at item 5)
-        mk_run("pp", 4, 0, 0, 0, 1000, 1, {5: "err"}),
+        # D11 (fixed for Map / GenerateParallel): abort mode never cancelled the group (4 workers, 1000 items, failure at item 5)
+        mk_run("map", 4, 0, 0, 0, 1000, 1, {5: "err"}),
+        mk_run("pp", 4, 0, 0, 0, 40, 1, {5: "err"}),
         mk_run("map", 3, 0, 0, 0, 40, 1, {2: "perr"}),
         mk_run("gen", 4, 0, 0, 0, 64, 1, {5: "err"}),
         mk_run("pfe", 2, 2, 1, 1, 9, 1, {3: "xerr"}),
@@ -531,7 +545,9 @@ def corpus():   # noqa: F811
 
 
 def known_witnesses():
-    return {KEY_PSLICE: [mk_run("pp", 2, 6, 0, 0, 6, 0, {2: "pslice"}), mk_run("map", 2, 0, 0, 0, 6, 0, {1: "pempty"})]}
+    return {KEY_PPFAM: [mk_run("pp", 4, 0, 0, 0, 1000, 1, {5: "err"}, gate_anyway=True),
+                        mk_run("wrk", 2, 0, 0, 1, 12, 1, {3: "perr"}, gate_anyway=True)],
+            KEY_PSLICE: [mk_run("pp", 2, 6, 0, 0, 6, 0, {2: "pslice"}), mk_run("map", 2, 0, 0, 0, 6, 0, {1: "pempty"})]}
 
 
 # ---------------- runner: the generic differential runner, with the driver judging observed runs ----------------
